@@ -725,7 +725,7 @@ func observe(w mon.Sink, wk *mon.Worker, class, id string, in []byte, desc strin
 	}
 	w.Eval(fp + "/" + id)
 	w.Count("outcome_"+outcome, 1)
-	if class == "widths" || class == "grid" || class == "bitlen" || class == "gridcut" || class == "refcount" {
+	if class == "widths" || class == "grid" || class == "bitlen" || class == "gridcut" || class == "refcount" || class == "bigfork" {
 		w.Count(class+"_"+outcome, 1)
 	}
 }
@@ -1027,6 +1027,47 @@ func refCountCase(seed uint64, idx int) ([]byte, string) {
 	return r.bytes(), fmt.Sprintf("refcount=%d mask=%d with_hashes=%d exotic=%d position=%d targets=%d", nrefs, mask, d[2], d[3], d[4], d[5])
 }
 
+// bigForkCase: a VALID bag of two parts under one root: ~66000..70000 distinct small cells (a 4-ary tree), and a
+// fork-bomb chain of 40..64 cells each of which references the next one four times (4^depth paths, 40..64
+// cells). Either part alone is harmless; together they ask whether whatever keeps hashing / serialising linear
+// in the number of cells (a memo table, a visited set) still does so once it holds more than 2^16 cells.
+// Both orders of the two parts. About 1 MB each: a handful of cases, one per job.
+const bigForkCases = 6
+
+func bigForkCase(idx int) ([]byte, string) {
+	n := []int{70000, 66000, 70000}[idx%3]
+	chain := []int{64, 40, 48}[idx%3]
+	bigFirst := idx/3 == 0
+	cells := make([]rawCell, 0, n+chain+1)
+	bigAt, chainAt := uint64(1), uint64(1+n)
+	root := rawCell{d1: 2, d2: 2, data: []byte{0x77}, refs: []uint64{bigAt, chainAt}}
+	if !bigFirst {
+		root.refs = []uint64{chainAt, bigAt}
+	}
+	cells = append(cells, root)
+	for j := 0; j < n; j++ {
+		c := rawCell{d2: 6, data: []byte{byte(j >> 16), byte(j >> 8), byte(j)}}
+		for k := 1; k <= 4; k++ {
+			if ch := 4*j + k; ch < n {
+				c.refs = append(c.refs, uint64(1+ch))
+			}
+		}
+		c.d1 = byte(len(c.refs))
+		cells = append(cells, c)
+	}
+	for j := 0; j < chain; j++ {
+		c := rawCell{d2: 2, data: []byte{byte(j)}}
+		if j+1 < chain {
+			nx := chainAt + uint64(j) + 1
+			c.d1, c.refs = 4, []uint64{nx, nx, nx, nx}
+		}
+		cells = append(cells, c)
+	}
+	r := &rawBoc{magic: rboc.MagicGeneric, flagByte: -1, size: 3, off: 3, roots: 1, rootList: []uint64{0}, cellsRaw: cells, cells: uint64(len(cells))}
+	r.fix()
+	return r.bytes(), fmt.Sprintf("bigfork cells=%d chain=%d big-first=%v", n, chain, bigFirst)
+}
+
 // bitLenCase: a valid bag whose interesting cell has exactly n data bits, n = 0..1023 (the parser gives
 // every cell a 1023-bit capacity, so the last few lengths leave 0, 1, 2 ... bits of room for whatever a
 // post-call appends, e.g. the completion tag of the Fift form), as a root, as a child and as an exotic
@@ -1232,6 +1273,8 @@ func worker(w *mon.Worker) {
 			}
 		} else if j.Class == "refcount" {
 			in, desc = refCountCase(w.Seed, k)
+		} else if j.Class == "bigfork" {
+			in, desc = bigForkCase(k)
 		} else {
 			in, desc = mutate(j.Class, corp[j.Seed], j.Seed, k, corp, w.Seed)
 		}
@@ -1262,7 +1305,7 @@ func main() {
 		tier = os.Args[1]
 	}
 	R := mon.Start("C07", tier)
-	R.Rule = "inputs = every truncation and every single-byte substitution of 40 small valid BOCs (all header variants, written by the reference writer), truncations/header substitutions of larger and real BOCs, random multi-byte edits, splices, a grid of small headers and the same inputs with their last bytes cut (1..6 bytes of those with the CRC flag at quick, 1..12 of all at thorough), descriptors announcing 5-7 references with a consistent layout (stored hashes for every level mask, data, valid forward references), a sweep of every bit length, valid bags at every index width 1..4 x offset width 1..8, adversarial headers from a lying writer (sizes, counts, offsets, root/ref indices self/backward/out of range, ref count 5-7, with-hashes without room, malformed exotic cells, deep chains, diamond ladders, wrong CRC, trailing bytes) and random bytes behind each magic; every input runs in a child process (ulimit -v) under panic/fatal/CPU/allocation monitors, returned roots are walked for soundness and Hash/ToBoc/ToString run under the same monitors; on the generated classes and one input in 128 also Hash256/HashString, ToBocCustom (index, CRC, cache bits), ToBocCustomWithHasher with a hasher shared by the roots, MarshalJSON, the text serialisers and the bit printers; every accepted bag with no or several roots (and the same sample) goes through DeserializeSingleRootBoc / SinglRootHex / SinglRootBase64 / Cell.UnmarshalJSON; one input in 97 through the hex / base64 / JSON entry points, clean and damaged (odd length, empty, blanks, other alphabets, unbalanced quotes); non-trivial = an input that was parsed under the monitors; distinct = distinct (mutation class, case id, outcome/error class)"
+	R.Rule = "inputs = every truncation and every single-byte substitution of 40 small valid BOCs (all header variants, written by the reference writer), truncations/header substitutions of larger and real BOCs, random multi-byte edits, splices, a grid of small headers and the same inputs with their last bytes cut (1..6 bytes of those with the CRC flag at quick, 1..12 of all at thorough), descriptors announcing 5-7 references with a consistent layout (stored hashes for every level mask, data, valid forward references), valid bags of ~70000 distinct cells next to a 40..64-cell fork-bomb chain (both orders), a sweep of every bit length, valid bags at every index width 1..4 x offset width 1..8, adversarial headers from a lying writer (sizes, counts, offsets, root/ref indices self/backward/out of range, ref count 5-7, with-hashes without room, malformed exotic cells, deep chains, diamond ladders, wrong CRC, trailing bytes) and random bytes behind each magic; every input runs in a child process (ulimit -v) under panic/fatal/CPU/allocation monitors, returned roots are walked for soundness and Hash/ToBoc/ToString run under the same monitors; on the generated classes and one input in 128 also Hash256/HashString, ToBocCustom (index, CRC, cache bits), ToBocCustomWithHasher with a hasher shared by the roots, MarshalJSON, the text serialisers and the bit printers; every accepted bag with no or several roots (and the same sample) goes through DeserializeSingleRootBoc / SinglRootHex / SinglRootBase64 / Cell.UnmarshalJSON; one input in 97 through the hex / base64 / JSON entry points, clean and damaged (odd length, empty, blanks, other alphabets, unbalanced quotes); non-trivial = an input that was parsed under the monitors; distinct = distinct (mutation class, case id, outcome/error class)"
 	R.Assume(fmt.Sprintf("allocation bound for the parse: %d + %d x len(input) bytes (a minimal cell is 2 input bytes and costs a few hundred bytes of Go objects); CPU bound %v s per input", allocBase, allocPerByte, cpuBound))
 	R.Assume("Hash/ToBoc returning an error on a sound but semantically invalid cell (bad exotic cell) is legal; a panic is not")
 	corp := corpus(R.Seed(), mon.RepoRoot())
@@ -1333,6 +1376,7 @@ func main() {
 	add("widths", 0, widthCases, 2048)
 	add("gridcut", 0, gridSize*gridCuts, 40000)
 	add("refcount", 0, refCountCases, 2048)
+	add("bigfork", 0, bigForkCases, 1)
 	add("adversarial", 0, R.N(12000, 400000), 4000)
 	add("random", 0, R.N(6000, 300000), 20000)
 	R.Extra("jobs", len(jobs))
